@@ -106,9 +106,9 @@ Definition rename_seg (old new seg : bytes) : bytes :=
   | Some k => if bytes_eqb k old then new ++ raw_rest seg else seg
   | None => seg
   end.
+Definition rename_raw (raw old new : bytes) : bytes := join_byte 38 (map (rename_seg old new) (split_byte 38 raw)).
 Definition query_rename (raw old new : bytes) : bytes :=
-  if mem old (map fst (parse_query raw)) then join_byte 38 (map (rename_seg old new) (split_byte 38 raw))
-  else raw.
+  if mem old (map fst (parse_query raw)) then rename_raw raw old new else raw.
 (* queryFilter (fix ccf0ec4): per parameter, decoded key *)
 Definition query_filter (del : option bytes -> bool) (raw : bytes) : bytes :=
   match raw with
@@ -162,57 +162,7 @@ Definition action_file_check (cmd : bytes) (params : list bytes) : bool :=
 Definition rewrite_accepts (cmd : bytes) (params : list bytes) : bool :=
   action_file_check cmd params && mem (to_upper cmd) rewrite_allowed.
 
-(* Action.Do for the commands mod_rewrite allows *)
-Inductive rwcmd := HostSet | HostFromPath | HostSuffixReplace | PathSet | PathPrefixAdd | PathPrefixTrim
-                 | QueryAdd | QueryRename | QueryDel | QueryDelAllExcept.
-Definition rw_cmd_of (cmd : bytes) : option rwcmd :=
-  if bytes_eqb cmd s_HOST_SET then Some HostSet
-  else if bytes_eqb cmd s_HOST_SET_FROM_PATH_PREFIX then Some HostFromPath
-  else if bytes_eqb cmd s_HOST_SUFFIX_REPLACE then Some HostSuffixReplace
-  else if bytes_eqb cmd s_PATH_SET then Some PathSet
-  else if bytes_eqb cmd s_PATH_PREFIX_ADD then Some PathPrefixAdd
-  else if bytes_eqb cmd s_PATH_PREFIX_TRIM then Some PathPrefixTrim
-  else if bytes_eqb cmd s_QUERY_ADD then Some QueryAdd
-  else if bytes_eqb cmd s_QUERY_RENAME then Some QueryRename
-  else if bytes_eqb cmd s_QUERY_DEL then Some QueryDel
-  else if bytes_eqb cmd s_QUERY_DEL_ALL_EXCEPT then Some QueryDelAllExcept
-  else None.
-Definition rw_do (c : rwcmd) (params : list bytes) (u : url) : url :=
-  let p0 := nth 0 params [] in
-  let p1 := nth 1 params [] in
-  match c with
-  | HostSet => mkUrl p0 (u_path u) (u_query u)
-  | HostFromPath => host_from_path u
-  | HostSuffixReplace => host_suffix_replace u p0 p1
-  | PathSet => mkUrl (u_host u) p0 (u_query u)
-  | PathPrefixAdd => path_prefix_add u p0
-  | PathPrefixTrim => path_prefix_trim u p0
-  | QueryAdd => mkUrl (u_host u) (u_path u) (query_add (u_query u) p0 p1)
-  | QueryRename => mkUrl (u_host u) (u_path u) (query_rename (u_query u) p0 p1)
-  | QueryDel => mkUrl (u_host u) (u_path u) (query_del (u_query u) params)
-  | QueryDelAllExcept => mkUrl (u_host u) (u_path u) (query_del_all_except (u_query u) params)
-  end.
-Definition action_do (cmd : bytes) (params : list bytes) (u : url) : url :=
-  match rw_cmd_of cmd with Some c => rw_do c params u | None => u end.
-(* load a one-action rule and run it: None = the configuration is rejected *)
-Definition rewrite_run (cmd : bytes) (params : list bytes) (u : url) : option url :=
-  if rewrite_accepts cmd params then Some (action_do (to_upper cmd) params u) else None.
-
-(* ---------- mod_header ---------- *)
-(* isTokenTable *)
-Definition is_tchar (c : Z) : bool :=
-  ((48 <=? c) && (c <=? 57)) || ((65 <=? c) && (c <=? 90)) || ((97 <=? c) && (c <=? 122))
-  || existsb (Z.eqb c) [33; 35; 36; 37; 38; 39; 42; 43; 45; 46; 94; 95; 96; 124; 126].
-Fixpoint canon_go (upper : bool) (s : bytes) : bytes :=
-  match s with
-  | [] => []
-  | c :: r =>
-    let c' := if upper then upper_byte c else lower_byte c in
-    c' :: canon_go (c' =? 45) r
-  end.
-(* textproto.CanonicalMIMEHeaderKey *)
-Definition canonical_key (s : bytes) : bytes := if forallb is_tchar s then canon_go true s else s.
-
+(* string-keyed multimaps kept sorted by key: http headers and url.Values *)
 Definition header := list (bytes * list bytes).     (* canonical key -> value lines, keys unique *)
 (* byte-wise string order (Go's <), used to keep the key-sorted presentation of the header map *)
 Fixpoint bytes_ltb (a b : bytes) : bool :=
@@ -232,6 +182,101 @@ Fixpoint hdr_set (k : bytes) (vs : list bytes) (h : header) : header :=
 Definition hdr_get (k : bytes) (h : header) : list bytes := match assoc k h with Some v => v | None => [] end.
 Definition hdr_del (k : bytes) (h : header) : header := filter (fun kv => negb (bytes_eqb k (fst kv))) h.
 Definition hdr_add (k v : bytes) (h : header) : header := hdr_set k (hdr_get k h ++ [v]) h.
+
+
+(* ---- Request.Query: the parsed query cached on the request (url.Values), updated by the query actions next to
+   the raw query string ---- *)
+Definition has_key (k : bytes) (m : header) : bool := existsb (fun kv => bytes_eqb k (fst kv)) m.
+Definition qmap_of (pairs : list (bytes * bytes)) : header :=
+  fold_left (fun m kv => hdr_add (fst kv) (snd kv) m) pairs [].
+Record rstate := mkSt { s_url : url; s_cache : option header }.
+(* queryParse: re-use req.Query, else parse URL.RawQuery *)
+Definition cache_of (st : rstate) : header :=
+  match s_cache st with Some m => m | None => qmap_of (parse_query (u_query (s_url st))) end.
+
+(* Action.Do for the commands mod_rewrite allows *)
+Inductive rwcmd := HostSet | HostFromPath | HostSuffixReplace | PathSet | PathPrefixAdd | PathPrefixTrim
+                 | QueryAdd | QueryRename | QueryDel | QueryDelAllExcept.
+Definition rw_cmd_of (cmd : bytes) : option rwcmd :=
+  if bytes_eqb cmd s_HOST_SET then Some HostSet
+  else if bytes_eqb cmd s_HOST_SET_FROM_PATH_PREFIX then Some HostFromPath
+  else if bytes_eqb cmd s_HOST_SUFFIX_REPLACE then Some HostSuffixReplace
+  else if bytes_eqb cmd s_PATH_SET then Some PathSet
+  else if bytes_eqb cmd s_PATH_PREFIX_ADD then Some PathPrefixAdd
+  else if bytes_eqb cmd s_PATH_PREFIX_TRIM then Some PathPrefixTrim
+  else if bytes_eqb cmd s_QUERY_ADD then Some QueryAdd
+  else if bytes_eqb cmd s_QUERY_RENAME then Some QueryRename
+  else if bytes_eqb cmd s_QUERY_DEL then Some QueryDel
+  else if bytes_eqb cmd s_QUERY_DEL_ALL_EXCEPT then Some QueryDelAllExcept
+  else None.
+Definition rw_step (c : rwcmd) (params : list bytes) (st : rstate) : rstate :=
+  let u := s_url st in
+  let p0 := nth 0 params [] in
+  let p1 := nth 1 params [] in
+  let qurl := fun q => mkUrl (u_host u) (u_path u) q in
+  match c with
+  | HostSet => mkSt (mkUrl p0 (u_path u) (u_query u)) (s_cache st)
+  | HostFromPath => mkSt (host_from_path u) (s_cache st)
+  | HostSuffixReplace => mkSt (host_suffix_replace u p0 p1) (s_cache st)
+  | PathSet => mkSt (mkUrl (u_host u) p0 (u_query u)) (s_cache st)
+  | PathPrefixAdd => mkSt (path_prefix_add u p0) (s_cache st)
+  | PathPrefixTrim => mkSt (path_prefix_trim u p0) (s_cache st)
+  | QueryAdd =>
+    let m := cache_of st in
+    (* queries.Get(key) == "" ? Set : Add *)
+    let m' := if nonempty (hd [] (hdr_get p0 m)) then hdr_add p0 p1 m else hdr_set p0 [p1] m in
+    mkSt (qurl (query_add (u_query u) p0 p1)) (Some m')
+  | QueryRename =>
+    let m := cache_of st in
+    if has_key p0 m
+    then mkSt (qurl (rename_raw (u_query u) p0 p1)) (Some (hdr_set p1 (hdr_get p0 m) (hdr_del p0 m)))
+    else mkSt u (Some m)
+  | QueryDel =>
+    mkSt (qurl (query_del (u_query u) params)) (Some (fold_left (fun m k => hdr_del k m) params (cache_of st)))
+  | QueryDelAllExcept =>
+    mkSt (qurl (query_del_all_except (u_query u) params))
+         (Some (filter (fun kv => mem (fst kv) params) (cache_of st)))
+  end.
+(* one action on a fresh request (no cached query): the URL afterwards *)
+Definition rw_do (c : rwcmd) (params : list bytes) (u : url) : url := s_url (rw_step c params (mkSt u None)).
+Definition action_step (cmd : bytes) (params : list bytes) (st : rstate) : rstate :=
+  match rw_cmd_of cmd with Some c => rw_step c params st | None => st end.
+Definition action_do (cmd : bytes) (params : list bytes) (u : url) : url := s_url (action_step cmd params (mkSt u None)).
+(* load a one-action rule and run it: None = the configuration is rejected *)
+Definition rewrite_run (cmd : bytes) (params : list bytes) (u : url) : option rstate :=
+  if rewrite_accepts cmd params then Some (action_step (to_upper cmd) params (mkSt u None)) else None.
+
+(* a rule file: rules = (condition matches, Last flag, actions); every action must load; the rules are tried in
+   order, a matching rule runs its actions in order, Last stops the scan *)
+Definition rw_rule := (bool * bool * list (bytes * list bytes))%type.
+Definition rules_accept (rs : list rw_rule) : bool :=
+  forallb (fun r => forallb (fun a => rewrite_accepts (fst a) (snd a)) (snd r)) rs.
+Definition run_actions (acts : list (bytes * list bytes)) (st : rstate) : rstate :=
+  fold_left (fun st a => action_step (to_upper (fst a)) (snd a) st) acts st.
+Fixpoint run_rules (rs : list rw_rule) (st : rstate) : rstate :=
+  match rs with
+  | [] => st
+  | (m, last, acts) :: rest =>
+    if m then let st' := run_actions acts st in if last then st' else run_rules rest st'
+    else run_rules rest st
+  end.
+Definition rewrite_rules_run (rs : list rw_rule) (u : url) : option rstate :=
+  if rules_accept rs then Some (run_rules rs (mkSt u None)) else None.
+
+(* ---------- mod_header ---------- *)
+(* isTokenTable *)
+Definition is_tchar (c : Z) : bool :=
+  ((48 <=? c) && (c <=? 57)) || ((65 <=? c) && (c <=? 90)) || ((97 <=? c) && (c <=? 122))
+  || existsb (Z.eqb c) [33; 35; 36; 37; 38; 39; 42; 43; 45; 46; 94; 95; 96; 124; 126].
+Fixpoint canon_go (upper : bool) (s : bytes) : bytes :=
+  match s with
+  | [] => []
+  | c :: r =>
+    let c' := if upper then upper_byte c else lower_byte c in
+    c' :: canon_go (c' =? 45) r
+  end.
+(* textproto.CanonicalMIMEHeaderKey *)
+Definition canonical_key (s : bytes) : bytes := if forallb is_tchar s then canon_go true s else s.
 
 Definition s_REQ_HEADER_RENAME := Eval compute in bs "REQ_HEADER_RENAME".
 Definition s_RSP_HEADER_RENAME := Eval compute in bs "RSP_HEADER_RENAME".
@@ -345,14 +390,14 @@ Definition header_run (vars : list (bytes * bytes)) (cmd : bytes) (params : list
   else None.
 
 (* ---------- bfe_basic/action used directly (Action.UnmarshalJSON + Action.Do, no allow-list) ---------- *)
-Definition direct_run (cmd : bytes) (params : list bytes) (u : url) (h : header) : option (url * header) :=
+Definition direct_run (cmd : bytes) (params : list bytes) (u : url) (h : header) : option (rstate * header) :=
   if action_file_check cmd params then
     let c := to_upper cmd in
     match header_cmd c with
-    | Some (true, HSet) => Some (u, header_apply HSet params h)
-    | Some (true, HAdd) => Some (u, header_apply HAdd params h)
-    | Some (true, HDel) => Some (u, header_apply HDel params h)
-    | _ => Some (action_do c params u, h)                (* CLOSE / PASS / FINISH: nothing *)
+    | Some (true, HSet) => Some (mkSt u None, header_apply HSet params h)
+    | Some (true, HAdd) => Some (mkSt u None, header_apply HAdd params h)
+    | Some (true, HDel) => Some (mkSt u None, header_apply HDel params h)
+    | _ => Some (action_step c params (mkSt u None), h)                (* CLOSE / PASS / FINISH: nothing *)
     end
   else None.
 
